@@ -68,6 +68,17 @@ def _exc_leaves(e: BaseException) -> list:
     return [e]
 
 
+class _Aw:
+    """A non-coroutine awaitable wrapping a coroutine (what pool.acquire()-style factories
+    hand out)."""
+
+    def __init__(self, coro: Any) -> None:
+        self.coro = coro
+
+    def __await__(self):  # type: ignore[no-untyped-def]
+        return self.coro.__await__()
+
+
 class _Ballast:
     pass
 
@@ -522,7 +533,10 @@ class H:
                 return v
 
         wrap = spec.get("wrap")
-        if kind != "sync" and wrap == "lambda":
+        if kind != "sync" and wrap == "aw":
+            inner0 = fac
+            fac = lambda: _Aw(inner0())  # noqa: E731  a plain callable returning an awaitable object
+        elif kind != "sync" and wrap == "lambda":
             inner = fac
             fac = lambda: inner()  # noqa: E731  a plain callable returning a coroutine
         elif kind != "sync" and wrap == "callable" and not spec.get("annot"):
@@ -1572,7 +1586,43 @@ def gen(rng: random.Random, tier: str, prop: str) -> dict:
         "sched": {"policy": rng.choice(("uniform", "coin", "prio", "fifo")), "seed": rng.getrandbits(32)},
         "root": g.block([], 0),
     }
+    if rng.random() < (0.15 if prop in ("C04", "C19") else 0.04):
+        _make_async_only(plan["root"], rng)
     return plan
+
+
+def _make_async_only(root: dict, rng: random.Random) -> None:
+    """Swarm knob: a plan that only ever uses the asynchronous lookup API - which is what
+    makes factories returning awaitable *objects* (not coroutines) legitimate in it."""
+    async_fns = sorted(k for k, v in CATALOGUE.items() if v[1])
+
+    def fix_acts(acts: list) -> None:
+        for a in acts:
+            op = a[0]
+            if op == "get":
+                a[1]["api"] = {"nowait": "get", "mod_nowait": "mod_get"}.get(a[1].get("api", "get"), a[1].get("api", "get"))
+            elif op == "inj":
+                if not CATALOGUE[a[1]["fn"]][1]:
+                    a[1]["fn"] = rng.choice(async_fns)
+            elif op == "inj_late":
+                a[1]["async"] = True
+            elif op == "fac":
+                if a[1].get("kind") == "async" and not a[1].get("annot") and not a[1].get("same_as") and rng.random() < 0.7:
+                    a[1]["wrap"] = "aw"
+            elif op == "add":
+                for la in a[1].get("late") or ():
+                    fix_acts([la])
+            elif op == "child":
+                fix_block(a[1])
+            elif op == "par":
+                for br in a[1]:
+                    fix_acts(br.get("body", []))
+
+    def fix_block(b: dict) -> None:
+        fix_acts(b.get("between") or [])
+        fix_acts(b.get("body") or [])
+
+    fix_block(root)
 
 
 def static_checks(prop: str) -> list[dict]:
